@@ -259,8 +259,8 @@ def run(chk):
     chk.function(FILE, "DataStoreABC._check_writable", "P")
     only = getattr(chk, "only", None)
     if not only or "proof" in only:
-        run_drop(chk)
-        run_writable(chk)
+        chk.guard(run_drop)
+        chk.guard(run_writable)
         chk.discharge()
     chk.assume("str.replace(old, new) returns the string unchanged when old does not occur (identifiers with an embedded "
                "format suffix are outside the string contract's precondition and are covered by the bounded tier)")
